@@ -9,8 +9,8 @@ TB = ('rustc name/type resolution and MIR construction; pinned dependency crates
 
 CLAIMS = {
     'C01': dict(
-        technique='kind-directed abstract evaluation of MIR (constant propagation over the finite SyntaxKind lattice) of every dispatcher and child-dispatch loop, per grammar child kind; truth tables for paren removal / optional parens and the mode they establish; who-may-reorder and who-may-filter the children; abstract evaluation of complete child sequences at the flow sites against the lexer\'s token-fusion relation; printer-side mode simulation for expressions embedded with #',
-        text='Partial: decides total type-directed dispatch, that no significant child kind is dropped at any dispatch site, spelling agreement, the order/disambiguation clauses, and that optional delimiters establish the mode their body is converted in (statement boundaries). Quantifies over (dispatch site x grammar kind) pairs instead of inputs, including pairs no fixture contains. Also decides, at the 21 code-mode sites printed by the flow helper, that tokens the lexer would fuse stay separated for every child sequence the grammar allows, and that an expression embedded with # in math is converted in code mode. Does not decide the round trip. Found and repaired the in / not in chain defect and F15 (parentheses of a literal after #); one known finding (F20, `1.` + field access).',
+        technique='kind-directed abstract evaluation of MIR (constant propagation over the finite SyntaxKind lattice) of every dispatcher and child-dispatch loop, per grammar child kind; truth tables for paren removal / optional parens and the mode they establish; who-may-reorder, who-may-filter the children and pairing of the two parts of an argument list; abstract evaluation of complete child sequences at the flow sites against the lexer\'s token-fusion relation; printer-side mode simulation for expressions embedded with #',
+        text='Partial: decides total type-directed dispatch, that no significant child kind is dropped at any dispatch site, spelling agreement, the order/disambiguation clauses, and that optional delimiters establish the mode their body is converted in (statement boundaries). Quantifies over (dispatch site x grammar kind) pairs instead of inputs, including pairs no fixture contains. Also decides, at the 21 code-mode sites printed by the flow helper, that tokens the lexer would fuse stay separated for every child sequence the grammar allows, and that an expression embedded with # in math is converted in code mode. Does not decide the round trip. Found and repaired the in / not in chain defect, F15 (parentheses of a literal after #) and F21 (set rule dropped trailing content blocks); one known finding (F20, `1.` + field access).',
         design_ref='DESIGN.md §2 C01'),
     'C04': dict(
         technique='abstract evaluation of child sequences at every comment-emitting site (state carried between iterations): <LineComment, Space+nl>, <LineComment, Space+nl, X> where the terminator is a queued item, <LineComment, END> where only part of the children is iterated; the list printer under the forced layout; shape check of the line-break text predicate; optional-delimiter helpers per mode; abstract evaluation of complete child sequences (a Space between every two children) at the flow sites, the returned document walked against the code lexer\'s token-fusion relation; printer-side mode simulation (after # in math the printer is in code mode)',
